@@ -369,11 +369,20 @@ func c17History(c *Ctx) {
 			c.R.Count("helper_history_calls", 1)
 		}
 		call(q1)
-		call(faults[rng.Intn(len(faults))])
+		f1 := faults[rng.Intn(len(faults))]
+		call(f1)
 		call(mk(1 + rng.Intn(n1)))
 		call(faults[rng.Intn(len(faults))])
 		call(q1)
 		call(mk(1 + rng.Intn(maxLen)))
+		// texts that differ from an earlier one only by something a normalising key would drop: leading zeros added
+		// or removed, blanks, letter case - each is judged on its own (some are valid, some are not)
+		for _, x := range []string{q1, f1, "+" + q1, "-" + strings.Repeat("0", 1+rng.Intn(8))} {
+			call(x)
+			nb := []string{"0" + x, "00" + x, strings.Repeat("0", 1+rng.Intn(12)) + x, strings.TrimLeft(x, "0"), " " + x, x + " ", strings.ToUpper(x), strings.ToLower(x), "+" + x, strings.TrimLeft(x, "+-")}
+			call(nb[rng.Intn(len(nb))])
+			call(nb[rng.Intn(len(nb))])
+		}
 	}
 }
 
